@@ -201,6 +201,9 @@ class G:
             return (f"@s{v} = {e}", f"(AssignS {v} {qe})")
         if c < 0.75:
             e, qe, _ = self.nexp(1)
+            if r.random() < 0.3:      # push_distinct(): stacks 5 and 6 are written by nothing else
+                k = r.choice([5, 6])
+                return (f'push_distinct("k{k}", {e})', f"(PushD {k} {qe})")
             k = r.choice([1, 2])
             return (f'push("k{k}", {e})', f"(PushN {k} {qe})")
         if c < 0.88:
